@@ -2545,3 +2545,32 @@ def m_reshape_split_last(interp, st, base, base_node, args, kwargs, node):
 
 
 METHODS[("Grid", "reshape")] = m_reshape_split_last
+
+
+def np_default_rng(interp, st, args, kwargs, node):
+    """np.random.default_rng(seed): a generator object we do not look into (its methods have their own library contracts)"""
+    return _I().Opaque("np.random.Generator")
+
+
+def rng_permuted(interp, st, args, kwargs, node):
+    """Generator.permuted(a, axis=1, out=a) on an (n, 2, ...) array: every slice along axis 1 is permuted independently - with two entries, each
+    row keeps or exchanges them (an unknown choice per row).  In place: the argument named by `out` receives the result.  Trusted library contract."""
+    M = _M()
+    a = args[0] if args else None
+    axis, out = kwargs.get("axis"), kwargs.get("out")
+    if not isinstance(a, Grid) or axis != 1 or a.rank < 2 or not (isinstance(a.dims[1], int) and a.dims[1] == 2) or not isinstance(node, ast.Call):
+        raise Outside("Generator.permuted other than (array with a length-2 second axis, axis=1)", node)
+    _trust("np.random.Generator.permuted(a, axis=1): permutes the entries along axis 1 independently for every index of the other axes")
+    if a.rank != 3:
+        raise Outside("Generator.permuted on an array that is not (n, 2, k)", node)
+    flip = z3.Function(V.fresh_name("permuted_flip"), z3.IntSort(), z3.IntSort(), z3.BoolSort())  # one choice per (row, last index)
+    new = M.grid_lambda(a.dims, a.kind, lambda idx: z3.If(flip(idx[0], idx[2]), a.select([idx[0], 1 - idx[1], idx[2]]), a.select(idx)), a.dtype)
+    if out is not None:
+        kw = [k_ for k_ in node.keywords if k_.arg == "out"]
+        if not kw:
+            raise Outside("Generator.permuted: cannot find the out= argument", node)
+        interp.assign(kw[0].value, new, st)
+    return new
+
+
+LIBFUNCS.update({"np.random.default_rng": np_default_rng, "np.random.Generator.permuted": rng_permuted})
